@@ -26,6 +26,8 @@ def gen_cfg(rng, tier: str, big: bool = False, backing: str | None = "maybe") ->
     version = rng.choice([2, 3, 3, 3])
     cbs = [9, 9, 10, 12, 12, 14, 16, 16] if tier == "quick" else [9, 10, 11, 12, 13, 14, 15, 16, 16, 17, 18, 20, 21]
     cb = rng.choice(cbs)
+    if big and rng.random() < 0.35:
+        cb = rng.choice([20, 21, 21])  # the largest cluster sizes only make sense on large disks
     extl2 = version == 3 and cb >= 14 and rng.random() < 0.5
     if version == 3 and rng.random() < 0.25 and not extl2:
         cb = rng.choice([14, 16])
@@ -63,6 +65,7 @@ def gen_cfg(rng, tier: str, big: bool = False, backing: str | None = "maybe") ->
         "comp_far": rng.choice([0, 0, 0, 1 << 32, 1 << 42]),
         "comp_level": rng.choice([1, 6, 9]), "comp_pack": rng.choice(["tight", "sector", "odd"]),
         "l1_extra": rng.choice([0, 0, 1, 5]),
+        "snap_far": rng.choice([0, 0, 0, 1 << 32, 1 << 42]),  # snapshot table (and snapshot L1 tables) beyond 4 GiB
         "extl2_zero_as": rng.choice(["bit", "bit", "data"]), "extl2_keep_offset": rng.random() < 0.5,
         "backing": None,
     }
@@ -154,10 +157,14 @@ def render(cfg: dict, roots: list[Root], name: str = "disk.qcow2") -> Image:
     if len(roots) > 1:
         for ri, root in enumerate(roots[1:], 1):
             snap_entries.append((ri, root.snap))
+    far_items = []
     for i in order:
         kind, key, n = meta_items[i]
         if kind == "snaptable":
             n = 1 + sum(64 + len(s["id"].encode()) + len(s["name"].encode()) + s["extra_size"] for _, s in snap_entries) // cs
+        if cfg.get("snap_far") and (kind == "snaptable" or (kind == "l1" and key > 0)):
+            far_items.append((kind, key, max(n, 1)))
+            continue
         meta_pos[(kind, key)] = pos * cs
         pos += max(n, 1)
     cursor = pos * cs  # everything below is laid out at increasing offsets, so areas never overlap
@@ -185,6 +192,14 @@ def render(cfg: dict, roots: list[Root], name: str = "disk.qcow2") -> Image:
         if s not in used:
             put_poison(datafile, data_base + s * cs, cs, 0x57A1)
     comp_base = align_up(cursor + cfg["comp_far"], cs)
+    if far_items:
+        fpos = align_up(max(cursor, comp_base) + cfg["snap_far"] + (1 << 30), cs)
+        for kind, key, n in far_items:
+            meta_pos[(kind, key)] = fpos
+            fpos += n * cs
+        far_meta_end = fpos
+    else:
+        far_meta_end = 0
 
     # ---- compressed clusters --------------------------------------------------------------------------------
     comp_desc = {}
@@ -216,7 +231,7 @@ def render(cfg: dict, roots: list[Root], name: str = "disk.qcow2") -> Image:
         cpos += len(blob)
     if comp_items:
         put_poison(f, align_up(cpos, 512), 1024, 0xC0DE)
-    file_end = max(align_up(cpos, cs), cursor)
+    file_end = max(align_up(cpos, cs), cursor, far_meta_end)
 
     # ---- data clusters --------------------------------------------------------------------------------------
     for (ri, u), p in data_pos.items():
